@@ -138,6 +138,14 @@ def _circuit_elim_src():
     return gen_circuit_elim.generate(os.path.join(core.REPO, 'src', 'kyupy', 'circuit.py'))[0]
 
 
+@register('CircuitPickleSrc')
+def _circuit_pickle_src():
+    import os
+    from translate import gen_circuit_pickle
+    from vcheck import core
+    return gen_circuit_pickle.generate(os.path.join(core.REPO, 'src', 'kyupy', 'circuit.py'))[0]
+
+
 @register('TraversalsSrc')
 def _traversals_src():
     import os
